@@ -82,6 +82,13 @@ Theorem C04_exit_range : forall aee r flag,
   exit_code aee r flag = 0 \/ exit_code aee r flag = 1 \/ exists n, aee = Some n /\ exit_code aee r flag = n.
 Proof. exact c04_exit_range. Qed.
 
+(* the text form of a message's leading offset: every message-producing site prints it as 0x + UPPER-case hexadecimal (`:#X`), which is
+   exactly what the collector's sort parses back (^0x[0-9A-F]+, radix 16, panicking on anything else) -- so the numeric field m_off of the
+   model IS the number a reader sees and the sort key the code uses, and no message can abort the statistics thread at the end of a run
+   (fact re-read from analyze/validators/**, the reader crate and error_stats.rs on every run; seed C04-J: one site printed with `:#x`) *)
+Theorem C04_offsets_printed_as_parsed : Gen.Facts.error_offsets_upper_hex = true.
+Proof. exact eq_refl. Qed.
+
 Print Assumptions C04_no_panic_without_stave_target.
 Print Assumptions C04_unreachable_hint_never_reached.
 Print Assumptions C04_no_byte_decodes_to_padding.
@@ -100,3 +107,4 @@ Print Assumptions C04_known_finding_layer_7_witness.
 Print Assumptions C04_scanner_terminates_on_every_input.
 Print Assumptions C04_scanner_packet_bound.
 Print Assumptions C04_exit_range.
+Print Assumptions C04_offsets_printed_as_parsed.
